@@ -187,6 +187,8 @@ def parse_rvalue(s):
         return Rvalue("discriminant", place=parse_place(m.group(2)))
     if m and m.group(1) == "Len":
         return Rvalue("len", place=parse_place(m.group(2)))
+    if s.startswith("&raw const (fake) "):
+        return Rvalue("ref", place=parse_place(s[len("&raw const (fake) "):]), mut=False)
     if s.startswith("&raw "):
         raise Unsupported("raw reference %r" % s)
     if s.startswith("&mut "):
@@ -594,6 +596,7 @@ def scan_source_types(repo_src):
                         gens[m.group(1)] = params
     SOURCE_GENERICS.clear()
     SOURCE_GENERICS.update(gens)
+    enums.setdefault("Ordering", ["Less", "Equal", "Greater"])
     enums.setdefault("Option", ["None", "Some"])
     enums.setdefault("Result", ["Ok", "Err"])
     enums.setdefault("ControlFlow", ["Continue", "Break"])
